@@ -270,7 +270,7 @@ func (api *DatabaseAPI) Handle(msg []byte) {
 		// split key and payload
 		dataParts := bytes.SplitN(parts[2], []byte("|"), 2)
 		if len(dataParts) != 2 {
-			api.send(nil, dbMsgTypeError, "bad request: malformed message", nil)
+			api.send(parts[0], dbMsgTypeError, "bad request: malformed message", nil)
 			return
 		}
 
